@@ -9,10 +9,14 @@ import (
 )
 
 func init() {
+	natives["go.sia.tech/core/rhp/v2.MetaRoot"] = natMetaRoot
+	natives["go.sia.tech/core/blake2b.SumNodes"] = natSumNodes
+	natives["go.sia.tech/core/blake2b.SumLeaves"] = natSumLeaves
 	natives["go.sia.tech/core/types.NewPrivateKeyFromSeed"] = natNewPrivateKeyFromSeed
 	natives["(go.sia.tech/core/types.PrivateKey).SignHash"] = natSignHash
 	natives["(go.sia.tech/core/types.PublicKey).VerifyHash"] = natVerifyHash
 	natives["go.sia.tech/core/types.GeneratePrivateKey"] = natGeneratePrivateKey
+	natives[vapiPath+".ForgedSig"] = natForgedSig
 	natives["lukechampine.com/frand.Read"] = natFrandRead
 	natives["lukechampine.com/frand.Bytes"] = natFrandBytes
 	natives["lukechampine.com/frand.Intn"] = natFrandIntn
@@ -69,6 +73,9 @@ func natVerifyHash(fr *frame, fn *ssa.Function, args []value) value {
 	pk := args[0].(array)
 	h := args[1].(array)
 	s := args[2].(array)
+	if i.path.forged[i.bytesTerm([]value(s))] {
+		return false // made up by a party that holds no signing key for it
+	}
 	want := i.sigOf([]value(pk), []value(h))
 	return mkval(i.tt.Eq(i.bytesTerm([]value(s)), i.bytesTerm([]value(want))), types.Bool)
 }
@@ -117,4 +124,68 @@ func natFrandEntropy(n int) nativeFn {
 		}
 		return out
 	}
+}
+
+// MetaRoot: the Merkle root of a list of node hashes (left subtrees are the
+// largest complete ones). core computes it with a layout-dependent
+// accumulator (adjacent struct fields reinterpreted through unsafe), which the
+// boxed heap cannot express; this is the same function written recursively.
+func (i *interpreter) metaRoot(roots []value) array {
+	switch len(roots) {
+	case 0:
+		return zero(types.NewArray(types.Typ[types.Uint8], 32)).(array)
+	case 1:
+		return copyVal(roots[0]).(array)
+	}
+	split := 1
+	for split*2 < len(roots) {
+		split *= 2
+	}
+	l, r := i.metaRoot(roots[:split]), i.metaRoot(roots[split:])
+	bs := append([]value{uint8(1)}, []value(l)...)
+	bs = append(bs, []value(r)...)
+	return i.hashBytes("blake2b", bs, true).(array)
+}
+
+func natMetaRoot(fr *frame, fn *ssa.Function, args []value) value {
+	return fr.i.metaRoot(args[0].([]value))
+}
+
+// SumNodes(outs *[4][32]byte, nodes *[8][32]byte): outs[k] = SumPair(nodes[2k], nodes[2k+1])
+func natSumNodes(fr *frame, fn *ssa.Function, args []value) value {
+	outs := (*args[0].(*value)).(array)
+	nodes := (*args[1].(*value)).(array)
+	for k := 0; k < 4; k++ {
+		bs := append([]value{uint8(1)}, []value(nodes[2*k].(array))...)
+		bs = append(bs, []value(nodes[2*k+1].(array))...)
+		outs[k] = fr.i.hashBytes("blake2b", bs, true)
+	}
+	return nil
+}
+
+// SumLeaves(outs *[4][32]byte, leaves *[4][64]byte): outs[k] = SumLeaf(leaves[k])
+func natSumLeaves(fr *frame, fn *ssa.Function, args []value) value {
+	outs := (*args[0].(*value)).(array)
+	leaves := (*args[1].(*value)).(array)
+	for k := 0; k < 4; k++ {
+		bs := append([]value{uint8(0)}, []value(leaves[k].(array))...)
+		outs[k] = fr.i.hashBytes("blake2b", bs, true)
+	}
+	return nil
+}
+
+// ForgedSig(name): 64 arbitrary bytes that verify under no key for no message
+// (Dolev-Yao: signatures cannot be produced without the key).
+func natForgedSig(fr *frame, fn *ssa.Function, args []value) value {
+	i := fr.i
+	a := natBytes32(fr, fn, []value{args[0].(string) + ".a"}).(array)
+	b := natBytes32(fr, fn, []value{args[0].(string) + ".b"}).(array)
+	out := make(array, 64)
+	copy(out, a)
+	copy(out[32:], b)
+	if i.path.forged == nil {
+		i.path.forged = map[*Term]bool{}
+	}
+	i.path.forged[i.bytesTerm([]value(out))] = true
+	return out
 }
